@@ -833,6 +833,7 @@ def scenarios(prop, count, seed):
         hrn["peek"] = rng.random() < 0.2        # the read-only API is used while the run goes on
         hrn["zerowin"] = rng.random() < 0.3     # jobs_window=0 for "no limit" (instead of None)
         hrn["sabsorb"] = rng.random() < 0.3     # co_shutdown() handlers that absorb their cancellation
+        hrn["sraise"] = rng.random() < 0.2      # co_shutdown() handlers that end by raising
         # now and then the caller cancels the whole run from outside
         if rng.random() < {"C11": 0.15, "C13": 0.08, "C05": 0.05}.get(prop, 0.03):
             sc["cfg"]["ucancel"] = rng.choice([0, 1, 1, 2, 3])
